@@ -115,6 +115,11 @@ def _cmp(op, l, r, pol, atomize):
     if not pol:
         op = {"==": "!=", "!=": "==", "<": ">=", "<=": ">", ">": "<=", ">=": "<", "is": "is not", "is not": "is",
               "in": "not in", "not in": "in"}[op]
+    if op in ("is", "is not", "==", "!=") and (is_const(r, True, False) or is_const(l, True, False)):
+        c, x = (r, l) if is_const(r, True, False) else (l, r)
+        if isinstance(x, tuple) and x[0] in ("call", "ext", "method", "unop", "bool", "cmp"):
+            want = c[1] if op in ("is", "==") else (not c[1])
+            return npred(x, want, atomize)
     if op in ("is", "is not", "in", "not in"):
         return ("atom", ("cmp", op.replace("not ", "").replace(" not", ""), l, r), "not" not in op)
     # emptiness idioms
